@@ -232,6 +232,9 @@ structure Cfg where
   maxRows : Nat := 100000000
   /-- Array/Map offsets must be non-decreasing -/
   monotone : Bool := true
+  /-- additional type spellings a typed target accepts besides its own (`ColumnType.Conflicts`
+  negated; the default accepts only the identical string) -/
+  compat : Bytes → Bytes → Bool := fun _ _ => false
 
 /-- the limits the library enforces while decoding (proto/reader.go `maxStringSize`,
 proto/block.go `maxRowsInBLock`, `maxColumnsInBlock`) -/
